@@ -112,7 +112,7 @@ impl Table for Cedt {
         for f in fl {
             v.push(Op::new(C_CHBS, 0, *f));
         }
-        let ways: &[u16] = if level == 1 { &[0, 1, 5] } else { &[0, 1, 2, 3, 4, 5, 6, 7] };
+        let ways: &[u16] = &[0, 1, 2, 3, 4, 5, 6, 7];
         for (n, wy) in ways.iter().enumerate() {
             v.push(Op::new(C_CFMWS, cfmws_shape(*wy, if n % 2 == 0 { 0x1f } else { 0 }), fl[n % fl.len()]));
         }
